@@ -457,3 +457,10 @@ Proof.
     apply elem_of_list_In, elem_of_map_to_list in Hin. specialize (H k).
     unfold get0 in H. rewrite Hin in H. exact H.
 Qed.
+
+(** * the ledger's balance equation for a template written as inputs + mint - burn - fees - others:
+    what is consumed and minted equals what is produced, burned and paid as fee, class by class *)
+Theorem balance_preserved consumed mint burn fee others :
+  let change := a_sub (a_sub (a_sub (a_add consumed mint) burn) fee) others in
+  a_add consumed mint ≈ a_add (a_add (a_add change others) burn) fee.
+Proof. intros change k. unfold change. rewrite !get0_add, !get0_sub, !get0_add. lia. Qed.
